@@ -111,11 +111,12 @@ func findCodecs(w *World) []codecInfo {
 			}
 			var found types.Object
 			ast.Inspect(fd.Body, func(x ast.Node) bool {
-				c, ok := x.(*ast.CallExpr)
+				// a method call obj.M(...) or a method value obj.M handed to a helper
+				sel, ok := x.(*ast.SelectorExpr)
 				if !ok {
 					return true
 				}
-				if sel, ok := c.Fun.(*ast.SelectorExpr); ok {
+				{
 					if id, ok := sel.X.(*ast.Ident); ok {
 						if obj, ok := p.TypesInfo.Uses[id].(*types.Var); ok && obj.Parent() == p.Types.Scope() && isEncodingObject(obj.Type()) {
 							found = obj
